@@ -1,6 +1,8 @@
 import UPVerif.Core.Sexp
 import UPVerif.Drv.C33
 import UPVerif.Drv.Den
+import UPVerif.Drv.C02
+import UPVerif.Drv.C01
 import UPVerif.Drv.C26
 import UPVerif.Drv.C08
 import UPVerif.Drv.C31
@@ -53,6 +55,8 @@ def handlers : List (String × (Sexp → Sexp)) := [
   ("C31", Drv.C31.handle),
   ("C08", Drv.C08.handle),
   ("C26", Drv.C26.handle),
+  ("C01", Drv.C01.handle),
+  ("C02", Drv.C02.handle),
   ("ECHO", Drv.Den.handleEcho),
   ("DEN", Drv.Den.handleDen)
 ]
